@@ -15,6 +15,7 @@ static long rd(std::ifstream& in) { long v; in >> v; return v; }
 static void put_poly(TorusPolynomial* P, std::ifstream& in, const Inst& I) { torusPolynomialClear(P); for (int c = 0; c < I.NP; c++) P->coefsT[c * I.stride] = (Torus32)((uint32_t)rd(in) << I.sh); }
 static void read_gsw(TGswSample* g, std::ifstream& in, const Inst& I) { for (int r = 0; r < (I.KK + 1) * I.LL; r++) { for (int c = 0; c <= I.KK; c++) put_poly(&g->all_sample[r].a[c], in, I); g->all_sample[r].current_variance = 0; } }
 
+static const char* g_inst = "";
 static int replay(const char* path, unsigned seed, const char* only) {
     bool do_boot = !only[0] || strstr(only, "boot"), do_ext = !only[0] || strstr(only, "ext"), do_rot = !only[0] || strstr(only, "rot");
     std::ifstream in(path); Inst I;
@@ -55,13 +56,13 @@ static int replay(const char* path, unsigned seed, const char* only) {
             uint32_t ph;
             if (f == 0) { tfhe_bootstrap_woKS_FFT(u, bkf, mu32, x); ph = (uint32_t)lwePhase(u, xk); } else if (f == 1) { tfhe_bootstrap_FFT(r, bkf, mu32, x); ph = (uint32_t)lwePhase(r, lk); }
             else if (f == 2) { tfhe_bootstrap_woKS(u, bk, mu32, x); ph = (uint32_t)lwePhase(u, xk); } else { tfhe_bootstrap(r, bk, mu32, x); ph = (uint32_t)lwePhase(r, lk); }
-            VH_B; vh_s("k", "boot"); VH_C; vh_i("f", f); VH_C; il("a", a); VH_C; vh_i("b", b); VH_C; vh_i("mu", mu); VH_C; vh_w("ph", ph); VH_E;
+            VH_B; vh_s("k", "boot"); VH_C; vh_s("inst", g_inst); VH_C; vh_i("f", f); VH_C; il("a", a); VH_C; vh_i("b", b); VH_C; vh_i("mu", mu); VH_C; vh_w("ph", ph); VH_E;
         }
         if ((b + ai) % 3 == 0) {    // generic routine, arbitrary test polynomial (model: its component on the embedded sub-ring, v'[i] = 3i+1)
             TorusPolynomial* v = new_TorusPolynomial(1024); for (int j = 0; j < 1024; j++) v->coefsT[j] = (j % I.stride == 0) ? (Torus32)((uint32_t)((3 * (j / I.stride) + 1) % Q) << I.sh) : (Torus32)rng.u32();
             std::vector<int32_t> bara(I.NN); for (int q = 0; q < I.NN; q++) bara[q] = modSwitchFromTorus32(x->a[q], 2048); int barb = modSwitchFromTorus32(x->b, 2048);
             for (int f = 0; f < 2; f++) { if (f == 0) tfhe_blindRotateAndExtract_FFT(u, v, bkf->bkFFT, barb, bara.data(), I.NN, gp); else tfhe_blindRotateAndExtract(u, v, bk->bk, barb, bara.data(), I.NN, gp);
-                VH_B; vh_s("k", "bootv"); VH_C; vh_i("f", f); VH_C; il("a", a); VH_C; vh_i("b", b); VH_C; vh_w("ph", (uint32_t)lwePhase(u, xk)); VH_E; }
+                VH_B; vh_s("k", "bootv"); VH_C; vh_s("inst", g_inst); VH_C; vh_i("f", f); VH_C; il("a", a); VH_C; vh_i("b", b); VH_C; vh_w("ph", (uint32_t)lwePhase(u, xk)); VH_E; }
             delete_TorusPolynomial(v);
         }
     }
@@ -75,7 +76,7 @@ static int replay(const char* path, unsigned seed, const char* only) {
             if (f == 0) tGswExternMulToTLwe(res, gsw[m], gp); else if (f == 1) tGswFFTExternMulToTLwe(res, gswf[m], gp); else tGswExternProduct(res, gsw[m], c1, gp);
             tLwePhase(ph, res, tk);
             std::vector<uint32_t> pv(I.NP); long off = 0; for (int j = 0; j < 1024; j++) { if (j % I.stride == 0) pv[j / I.stride] = (uint32_t)ph->coefsT[j]; else { long d = labs((long)ph->coefsT[j]); if (d > off) off = d; } }
-            VH_B; vh_s("k", "ext"); VH_C; vh_i("f", f); VH_C; vh_i("m", m + 1); VH_C; vh_i("tag", t + 1); VH_C; vh_i("c0", c0); VH_C; vh_i("pos", pos); VH_C; wl("ph", pv); VH_C; vh_i("off", off); VH_E;
+            VH_B; vh_s("k", "ext"); VH_C; vh_s("inst", g_inst); VH_C; vh_i("f", f); VH_C; vh_i("m", m + 1); VH_C; vh_i("tag", t + 1); VH_C; vh_i("c0", c0); VH_C; vh_i("pos", pos); VH_C; wl("ph", pv); VH_C; vh_i("off", off); VH_E;
         }
     }
     // ---- blind rotation by chosen exponent vectors (multiples of the stride), whole and element by element ----
@@ -93,7 +94,7 @@ static int replay(const char* path, unsigned seed, const char* only) {
             else { for (int q = 0; q < I.NN; q++) tfhe_blindRotate_FFT(acc, bkf->bkFFT + q, bara.data() + q, 1, gp); }      // one key element at a time
             tLwePhase(ph, acc, tk);
             std::vector<uint32_t> pv(I.NP); long off = 0; for (int j = 0; j < 1024; j++) { if (j % I.stride == 0) pv[j / I.stride] = (uint32_t)ph->coefsT[j]; else { long d = labs((long)ph->coefsT[j]); if (d > off) off = d; } }
-            VH_B; vh_s("k", "rot"); VH_C; vh_i("f", f); VH_C; vh_i("aux", aux); VH_C; il("e", e); VH_C; wl("ph", pv); VH_C; vh_i("off", off); VH_E;
+            VH_B; vh_s("k", "rot"); VH_C; vh_s("inst", g_inst); VH_C; vh_i("f", f); VH_C; vh_i("aux", aux); VH_C; il("e", e); VH_C; wl("ph", pv); VH_C; vh_i("off", off); VH_E;
         }
         delete_TorusPolynomial(rot);
     }
@@ -138,6 +139,8 @@ static int full(int n, int k, int l, int bgbit, int t, int bb, unsigned seed, in
 int main(int argc, char** argv) {
     vh_init();
     if (argc >= 2 && !strcmp(argv[1], "full")) return full((int)vh_arg(argc, argv, "--n", 8), (int)vh_arg(argc, argv, "--k", 1), (int)vh_arg(argc, argv, "--l", 3), (int)vh_arg(argc, argv, "--bg", 7), (int)vh_arg(argc, argv, "--t", 8), (int)vh_arg(argc, argv, "--bb", 2), (unsigned)vh_arg(argc, argv, "--seed", 1), (int)vh_arg(argc, argv, "--cases", 6144));
-    if (argc >= 3 && !strcmp(argv[1], "replay")) return replay(argv[2], (unsigned)vh_arg(argc, argv, "--seed", 1), vh_sarg(argc, argv, "--only", ""));
+    if (argc >= 3 && !strcmp(argv[1], "replay")) {       // several instances one after the other in one process (state kept between calls of different shapes shows here)
+        int rc = 0; for (int i = 2; i < argc && argv[i][0] != '-'; i++) { g_inst = argv[i]; rc |= replay(argv[i], (unsigned)vh_arg(argc, argv, "--seed", 1), vh_sarg(argc, argv, "--only", "")); }
+        return rc; }
     fprintf(stderr, "usage: h_boot replay <instance.txt>\n"); return 2;
 }
